@@ -399,6 +399,30 @@ def Header.serialize (h : Header) (ty : Nat) (contentLength : Nat) : Except Fail
     beBytes 2 h.seqId ++
     [0, UInt8.ofNat h.logInterval])
 
+
+/-! ### Validating constructors of the header fields (`PtpVersion::new`, `SdoId::try_from`, `Header::new`) -/
+
+/-- `PtpVersion::new(major, minor)`: both must fit the 4-bit packing of octet 1 -/
+def PtpVersion.new? (major minor : Nat) : Option (Nat × Nat) :=
+  if major ≥ 0x10 ∨ minor ≥ 0x10 then none else some (major, minor)
+
+/-- `SdoId::try_from(u16)`: 12 bits -/
+def SdoId.new? (v : Nat) : Option Nat := if v ≤ 0xfff then some v else none
+
+/-- `Header::new(minor)`: default header of version 2.`minor`; the minor version is NOT validated here -/
+def Header.new (minor : Nat) : Header :=
+  { sdoId := 0, major := 2, minor := minor, domain := 0, alternateMaster := false, twoStep := false, unicast := false,
+    profile1 := false, profile2 := false, leap61 := false, leap59 := false, utcOffsetValid := false,
+    ptpTimescale := false, timeTraceable := false, freqTraceable := false, syncUncertain := false,
+    correction := 0, source := ⟨0, 0⟩, seqId := 0, logInterval := 0 }
+
+/-- a default header whose version / sdoId went through the validating constructors and whose plain integer
+    fields have the given values (`domain : u8`, `seq : u16`, `li`: the raw byte of the `i8`) -/
+def Header.construct? (major minor sdo domain seq li : Nat) : Option Header := do
+  let v ← PtpVersion.new? major minor
+  let sd ← SdoId.new? sdo
+  pure { Header.new 0 with major := v.1, minor := v.2, sdoId := sd, domain := domain, seqId := seq, logInterval := li }
+
 /-! ### Bodies -/
 
 structure Announce where
